@@ -11,6 +11,7 @@ import (
 
 	"github.com/lindb/lindb/aggregation/function"
 	"github.com/lindb/lindb/pkg/collections"
+	"github.com/lindb/lindb/tsdb"
 	"github.com/lindb/lindb/zzverif/internal/core"
 )
 
@@ -193,6 +194,42 @@ func (r *run) flush(fam int) {
 	r.c.Op(fmt.Sprintf("flush %d", fam), out)
 	r.sh.flush(fam)
 	r.c.Branch("op/flush")
+}
+
+// flushWindow runs dataFamily.Flush with a callback at the point where the mutable memory
+// database has become the immutable one and nothing has been written to the new file yet
+// (tsdb.VerifC11SetFlushHooks): `during` runs there — rows written now go to a NEW mutable memory
+// database, queries now must read the new mutable one, the immutable one and the files.
+func (r *run) flushWindow(fam int, during func()) {
+	if r.sh.fam(fam).mem == nil {
+		r.flush(fam)
+		return
+	}
+	entered := false
+	restore := tsdb.VerifC11SetFlushHooks(func() {
+		if entered {
+			return
+		}
+		entered = true
+		r.c.Op(fmt.Sprintf("flushbegin %d", fam), "ok")
+		r.sh.flush(fam)
+		during()
+	}, nil)
+	err := r.e.flush(fam)
+	restore()
+	out := "ok"
+	if err != nil {
+		out = "err"
+		r.c.Fail("flush-error", fmt.Sprintf("Flush failed: %v", err))
+	}
+	if !entered {
+		// Flush did not reach the memory database switch (nothing to flush)
+		r.c.Op(fmt.Sprintf("flush %d", fam), out)
+		r.sh.flush(fam)
+		return
+	}
+	r.c.Op(fmt.Sprintf("flushend %d", fam), out)
+	r.c.Branch("op/flush-with-window")
 }
 
 func (r *run) compact(fam int) {
@@ -476,7 +513,36 @@ func runRandom(c *core.Ctx, idx int) {
 			r.writeRow(fam, s, slot, int64(rng.Intn(int(ivMs))), fvs, h, false)
 			c.Branch("op/write")
 		case x < 80:
-			r.flush(pick(rng, famChoices))
+			fam := pick(rng, famChoices)
+			if rng.Intn(5) < 2 {
+				// a flush in progress: rows and queries between the memory database switch and the commit
+				nw, nq := 1+rng.Intn(3), 1+rng.Intn(2)
+				r.flushWindow(fam, func() {
+					for k := 0; k < nw; k++ {
+						wf := fam
+						if rng.Intn(4) == 0 {
+							wf = pick(rng, famChoices)
+						}
+						if wf != fam && r.sh.fam(wf).mem == nil && false {
+							continue
+						}
+						s := sdefs[rng.Intn(len(sdefs))]
+						slot := slotOf()
+						f := flds[rng.Intn(len(flds))]
+						if !commutative(aggOfFieldType(schema[f].ftype)) && r.sh.flushedCell[cellKey{wf, s.id, f, slot}] {
+							continue
+						}
+						r.writeRow(wf, s, slot, int64(rng.Intn(int(ivMs))), []fieldVal{{f, float64(rng.Intn(41) - 10)}}, nil, false)
+						c.Branch("op/write-during-flush")
+					}
+					for k := 0; k < nq; k++ {
+						doQuery()
+						c.Branch("query/during-flush")
+					}
+				})
+			} else {
+				r.flush(fam)
+			}
 		case x < 84:
 			r.compact(pick(rng, famChoices))
 		case x < 87:
